@@ -21,7 +21,7 @@ CODE_JOBS = max(2, min(12, (os.cpu_count() or 4) - 2))
 
 META = {
     "property": "C20",
-    "proof_modules": ["PyodaProofs.C20"],
+    "proof_modules": ["PyodaProofs.C20", "PyodaProofs.GenAgreeC14", "PyodaProofs.GenAgreeC14S", "PyodaProofs.GenAgreeC14V", "PyodaProofs.GenAgreeC14W"],
     "drivers": ["drv_codec"],
     "theorems": [
         "Pyoda.C20.loadAndUse_outcome", "Pyoda.C20.fromStream_outcome", "Pyoda.C20.forId_outcome",
@@ -30,8 +30,44 @@ META = {
         "Pyoda.C20.element_readers_progress",
         "Pyoda.C20.truncation_anywhere", "Pyoda.C20.loadAndUse_work_bound", "Pyoda.C20.payloads_fit",
         "Pyoda.C20.fromStream_as_written", "Pyoda.C20.forId_as_written", "Pyoda.C20.loadAndUseRaw_outcome",
+        # agreement of the definitions generated from the Python source (tools/py2lean.py) with the model
+        "Pyoda.GenAgree.C14.gen_Reader_ctor_eq", "Pyoda.GenAgree.C14.gen_Reader_readByte_eq",
+        "Pyoda.GenAgree.C14.gen_Reader_hasMoreData_eq", "Pyoda.GenAgree.C14.gen_Reader_readInt16_eq",
+        "Pyoda.GenAgree.C14.gen_Reader_readInt32_eq", "Pyoda.GenAgree.C14.gen_Reader_readInt64_eq",
+        "Pyoda.GenAgree.C14.gen_Reader_readVarint_loop1_eq", "Pyoda.GenAgree.C14.gen_Reader_readVarint_eq",
+        "Pyoda.GenAgree.C14.gen_Reader_readCount_eq", "Pyoda.GenAgree.C14.gen_Reader_readSignedCount_eq",
+        "Pyoda.GenAgree.C14.gen_Reader_readMilliseconds_eq", "Pyoda.GenAgree.C14.gen_Reader_readOffset_eq",
+        "Pyoda.GenAgree.C14.gen_Reader_readTransitionNone_eq", "Pyoda.GenAgree.C14.gen_Reader_readTransitionSome_eq",
+        "Pyoda.GenAgree.C14.gen_Reader_readString_loop1_eq", "Pyoda.GenAgree.C14.gen_Reader_readString_eq",
+        "Pyoda.GenAgree.C14.gen_Reader_readDictionary_loop1_eq", "Pyoda.GenAgree.C14.gen_Reader_readDictionary_eq",
+        "Pyoda.GenAgree.C14.gen_YearOffset_read_eq", "Pyoda.GenAgree.C14.gen_Recurrence_read_eq",
+        "Pyoda.GenAgree.C14.gen_MapZone_ctor_eq", "Pyoda.GenAgree.C14.gen_MapZone_read_loop1_eq",
+        "Pyoda.GenAgree.C14.gen_MapZone_read_eq", "Pyoda.GenAgree.C14.gen_ZoneLocation_read_eq",
+        "Pyoda.GenAgree.C14.gen_WindowsZones_read_loop1_eq", "Pyoda.GenAgree.C14.gen_WindowsZones_read_eq",
+        "Pyoda.GenAgree.C14.gen_Zone1970Location_read_loop1_eq", "Pyoda.GenAgree.C14.gen_Zone1970Location_read_eq",
+        "Pyoda.GenAgree.C14S.gen_Field_ctor_eq", "Pyoda.GenAgree.C14S.gen_Field_getId_eq",
+        "Pyoda.GenAgree.C14S.gen_readFields_step", "Pyoda.GenAgree.C14S.gen_Field_readFieldsNext_loop1_eq",
+        "Pyoda.GenAgree.C14S.gen_Field_readFieldsNext_eq",
+        "Pyoda.GenAgree.C14V.gen_Validate_canonAndPrimary_loop1_eq",
+        "Pyoda.GenAgree.C14V.gen_Validate_canonAndPrimary_loop2_eq",
+        "Pyoda.GenAgree.C14V.gen_Validate_canonAndPrimary_eq", "Pyoda.GenAgree.C14V.gen_Validate_locations_loop1_eq",
+        "Pyoda.GenAgree.C14V.gen_Validate_locations_eq", "Pyoda.GenAgree.C14V.gen_Validate_locationsNone_eq",
+        "Pyoda.GenAgree.C14V.gen_Validate_locations1970_loop1_eq",
+        "Pyoda.GenAgree.C14V.gen_Validate_locations1970_eq", "Pyoda.GenAgree.C14V.gen_Validate_locations1970None_eq",
+        "Pyoda.GenAgree.C14V.gen_Validate_tzdbIds_loop2_eq", "Pyoda.GenAgree.C14V.gen_Validate_tzdbIds_loop1_eq",
+        "Pyoda.GenAgree.C14V.gen_Validate_tzdbIds_eq", "Pyoda.GenAgree.C14W.gen_Writer_ctor_eq",
+        "Pyoda.GenAgree.C14W.gen_Writer_writeByte_eq", "Pyoda.GenAgree.C14W.gen_Writer_writeVarint_loop1_eq",
+        "Pyoda.GenAgree.C14W.gen_Writer_writeVarint_eq", "Pyoda.GenAgree.C14W.gen_Writer_writeVarint_neg",
+        "Pyoda.GenAgree.C14W.gen_Writer_writeCount_eq", "Pyoda.GenAgree.C14W.gen_Writer_writeSignedCount_eq",
+        "Pyoda.GenAgree.C14W.gen_Writer_writeInt16_eq", "Pyoda.GenAgree.C14W.gen_Writer_writeInt32_eq",
+        "Pyoda.GenAgree.C14W.gen_Writer_writeInt64_eq", "Pyoda.GenAgree.C14W.gen_Writer_writeMilliseconds_eq",
+        "Pyoda.GenAgree.C14W.gen_Writer_writeOffset_eq", "Pyoda.GenAgree.C14W.gen_Writer_writeString_eq",
+        "Pyoda.GenAgree.C14W.gen_checkNotNullDict_eq", "Pyoda.GenAgree.C14W.gen_Writer_writeDictionary_loop1_eq",
+        "Pyoda.GenAgree.C14W.gen_Writer_writeDictionary_eq", "Pyoda.GenAgree.C14W.gen_Writer_writeTransitionNone_eq",
+        "Pyoda.GenAgree.C14W.gen_Writer_writeTransitionSome_eq",
     ],
     "trusted_base": [
+        "translator tie shared with C14 (tools/py2lean.py; GenAgreeC14 / C14S / C14W): the reader (every read_* method, incl. the short-read loop of read_string under any stream that keeps the read(n) contract), the writer, and one next() of the field-framing generator _TzdbStreamField._read_fields are re-translated from the source on every run and proved equal to the codec model the C20 theorems are about (readFields is proved to be the iteration of that step and the handlers: gen_readFields_step). Outside the tie: the _Builder field handlers, _from_stream / create_zone with their except clauses, the zone/recurrence readers (correspondence only)",
         "io.BytesIO read semantics; struct.unpack('i') of four bytes is 0 iff all four are 0",
         "zone creation depends only on (string pool, id, zone field bytes): a (id, field) pair fetched successfully from the undamaged file is not fetched again when pool and field are unchanged (spot-checked on a seeded sample by full evaluation)",
         "wall-clock and memory limits are enforced by the harness (20 s alarm per call, 6 s for the id-map rewiring family; RLIMIT_AS = 1.5 GiB above the worker's mapped size), not proved",
